@@ -1,0 +1,199 @@
+//go:build verif
+
+package lua
+
+import (
+	"reflect"
+)
+
+// This file is only compiled with the build tag "verif". It adds read-only
+// accessors and thin wrappers around unexported interpreter structures for the
+// external verification harness. It does not modify any existing declaration.
+
+// VerifState is a snapshot of interpreter bookkeeping of one LState.
+type VerifState struct {
+	Sp           int
+	RegTop       int
+	RegCap       int
+	HasFrame     bool
+	FrameIdx     int
+	FrameBase    int
+	LocalBase    int
+	FrameIsG     bool
+	PanicFn      uintptr
+	HasErrorFunc bool
+	Dead         bool
+	Wrapped      bool
+	HasParent    bool
+	Stop         int32
+	// register indices of the open upvalue list, in list order
+	OpenUpvalues []int
+	// closed flag of each listed upvalue (a listed upvalue should be open)
+	OpenUpvaluesClosed []bool
+}
+
+// VerifSnapshot returns a snapshot of L's bookkeeping.
+func VerifSnapshot(ls *LState) VerifState {
+	s := VerifState{
+		Sp:           ls.stack.Sp(),
+		RegTop:       ls.reg.top,
+		RegCap:       len(ls.reg.array),
+		HasFrame:     ls.currentFrame != nil,
+		PanicFn:      reflect.ValueOf(ls.Panic).Pointer(),
+		HasErrorFunc: ls.hasErrorFunc,
+		Dead:         ls.Dead,
+		Wrapped:      ls.wrapped,
+		HasParent:    ls.Parent != nil,
+		Stop:         ls.stop,
+	}
+	if ls.currentFrame != nil {
+		s.FrameIdx = ls.currentFrame.Idx
+		s.FrameBase = ls.currentFrame.Base
+		s.LocalBase = ls.currentFrame.LocalBase
+		s.FrameIsG = ls.currentFrame.Fn != nil && ls.currentFrame.Fn.IsG
+	}
+	n := 0
+	for uv := ls.uvcache; uv != nil && n < 1<<20; uv = uv.next {
+		s.OpenUpvalues = append(s.OpenUpvalues, uv.index)
+		s.OpenUpvaluesClosed = append(s.OpenUpvaluesClosed, uv.closed)
+		n++
+	}
+	return s
+}
+
+// VerifFrames returns, for every live call frame from the bottom, (Idx, Base,
+// LocalBase, ReturnBase, NArgs, NRet, TailCall, IsG).
+func VerifFrames(ls *LState) [][8]int {
+	var out [][8]int
+	for i := 0; i < ls.stack.Sp(); i++ {
+		f := ls.stack.At(i)
+		if f == nil {
+			break
+		}
+		g := 0
+		if f.Fn != nil && f.Fn.IsG {
+			g = 1
+		}
+		out = append(out, [8]int{f.Idx, f.Base, f.LocalBase, f.ReturnBase, f.NArgs, f.NRet, f.TailCall, g})
+	}
+	return out
+}
+
+// VerifStringConstants exposes FunctionProto.stringConstants.
+func VerifStringConstants(p *FunctionProto) []string { return p.stringConstants }
+
+// VerifPreloadsIntact returns the first index whose shared preloaded number
+// value has been changed, or -1.
+func VerifPreloadsIntact() int {
+	for i := 0; i < int(preloadLimit); i++ {
+		n, ok := preloads[i].(LNumber)
+		if !ok || n != LNumber(i) {
+			return i
+		}
+	}
+	return -1
+}
+
+// VerifCallFrameStack wraps one of the two callFrameStack implementations.
+type VerifCallFrameStack struct{ s callFrameStack }
+
+func VerifNewCallFrameStack(auto bool, size int) *VerifCallFrameStack {
+	if auto {
+		return &VerifCallFrameStack{newAutoGrowingCallFrameStack(size)}
+	}
+	return &VerifCallFrameStack{newFixedCallFrameStack(size)}
+}
+
+// Push pushes a frame carrying tag (stored in Pc, NArgs and NRet).
+func (v *VerifCallFrameStack) Push(tag int) {
+	v.s.Push(callFrame{Pc: tag, NArgs: tag ^ 0x5a5a, NRet: -tag})
+}
+
+func verifFrameTag(f *callFrame) (idx int, tag int, ok bool) {
+	if f == nil {
+		return 0, 0, false
+	}
+	if f.NArgs != f.Pc^0x5a5a || f.NRet != -f.Pc {
+		return f.Idx, f.Pc, false
+	}
+	return f.Idx, f.Pc, true
+}
+
+// Pop returns (frame Idx, tag, tagConsistent, nonNil).
+func (v *VerifCallFrameStack) Pop() (int, int, bool, bool) {
+	f := v.s.Pop()
+	i, t, ok := verifFrameTag(f)
+	return i, t, ok, f != nil
+}
+func (v *VerifCallFrameStack) Last() (int, int, bool, bool) {
+	f := v.s.Last()
+	i, t, ok := verifFrameTag(f)
+	return i, t, ok, f != nil
+}
+func (v *VerifCallFrameStack) At(sp int) (int, int, bool, bool) {
+	f := v.s.At(sp)
+	i, t, ok := verifFrameTag(f)
+	return i, t, ok, f != nil
+}
+
+// Retag rewrites the tag of the frame at sp through the pointer At returns.
+func (v *VerifCallFrameStack) Retag(sp int, tag int) {
+	f := v.s.At(sp)
+	f.Pc = tag
+	f.NArgs = tag ^ 0x5a5a
+	f.NRet = -tag
+}
+func (v *VerifCallFrameStack) SetSp(sp int)  { v.s.SetSp(sp) }
+func (v *VerifCallFrameStack) Sp() int       { return v.s.Sp() }
+func (v *VerifCallFrameStack) IsFull() bool  { return v.s.IsFull() }
+func (v *VerifCallFrameStack) IsEmpty() bool { return v.s.IsEmpty() }
+func (v *VerifCallFrameStack) FreeAll()      { v.s.FreeAll() }
+
+// VerifRegistry wraps the unexported registry with a recording overflow handler.
+type VerifRegistry struct {
+	r         *registry
+	Overflows int
+}
+
+type verifOverflow struct{}
+
+func (v *VerifRegistry) registryOverflow() {
+	v.Overflows++
+	panic(verifOverflow{})
+}
+
+func VerifNewRegistry(initialSize, growBy, maxSize int) *VerifRegistry {
+	v := &VerifRegistry{}
+	v.r = newRegistry(v, initialSize, growBy, maxSize, newAllocator(32))
+	return v
+}
+
+// Try runs f and reports whether the overflow handler fired.
+func (v *VerifRegistry) Try(f func()) (overflow bool) {
+	defer func() {
+		if r := recover(); r != nil {
+			if _, ok := r.(verifOverflow); ok {
+				overflow = true
+				return
+			}
+			panic(r)
+		}
+	}()
+	f()
+	return false
+}
+
+func (v *VerifRegistry) Push(x LValue)              { v.r.Push(x) }
+func (v *VerifRegistry) Pop() LValue                { return v.r.Pop() }
+func (v *VerifRegistry) Get(i int) LValue           { return v.r.Get(i) }
+func (v *VerifRegistry) Set(i int, x LValue)        { v.r.Set(i, x) }
+func (v *VerifRegistry) SetNumber(i int, x LNumber) { v.r.SetNumber(i, x) }
+func (v *VerifRegistry) SetTop(i int)               { v.r.SetTop(i) }
+func (v *VerifRegistry) Top() int                   { return v.r.Top() }
+func (v *VerifRegistry) CopyRange(a, s, l, n int)   { v.r.CopyRange(a, s, l, n) }
+func (v *VerifRegistry) FillNil(a, n int)           { v.r.FillNil(a, n) }
+func (v *VerifRegistry) Insert(x LValue, i int)     { v.r.Insert(x, i) }
+func (v *VerifRegistry) IsFull() bool               { return v.r.IsFull() }
+func (v *VerifRegistry) Cap() int                   { return len(v.r.array) }
+func (v *VerifRegistry) RawAt(i int) LValue         { return v.r.array[i] }
+func (v *VerifRegistry) MaxSize() int               { return v.r.maxSize }
